@@ -541,7 +541,7 @@ func GetParentForEntry(storer gitstore.Storer, entry Entry) (Entry, error) {
 	if err == nil && has {
 		// We don't need to check the parent's Number here because it was
 		// checked when this was set in the cache
-		return GetEntry(storer, parentID)
+		return getLinkedEntry(storer, parentID)
 	}
 
 	parentIDs, err := storer.GetCommitParentIDs(entry.GetID())
@@ -558,7 +558,7 @@ func GetParentForEntry(storer gitstore.Storer, entry Entry) (Entry, error) {
 	}
 
 	parentID = parentIDs[0]
-	parentEntry, err := GetEntry(storer, parentID)
+	parentEntry, err := getLinkedEntry(storer, parentID)
 	if err != nil {
 		return nil, err
 	}
@@ -648,7 +648,27 @@ func GetLatestEntry(storer gitstore.Storer) (Entry, error) {
 		return nil, err
 	}
 
-	return GetEntry(storer, commitID)
+	// The RSL exists, so being unable to load its tip must not be mistaken for
+	// an empty RSL (callers number the first entry 1 and treat the absence of
+	// entries as nothing to verify)
+	return getLinkedEntry(storer, commitID)
+}
+
+// getLinkedEntry loads an entry that the RSL itself points at: the tip of the
+// RSL reference or the parent recorded in another entry. Such an entry must
+// exist, so a failure to read it is reported as is rather than as
+// ErrRSLEntryNotFound, which callers understand as having reached the end (or
+// the absence) of the RSL.
+func getLinkedEntry(storer gitstore.Storer, entryID githash.Hash) (Entry, error) {
+	entry, err := GetEntry(storer, entryID)
+	if err != nil {
+		if errors.Is(err, ErrRSLEntryNotFound) {
+			return nil, fmt.Errorf("unable to load RSL entry '%s': %s", entryID.String(), err.Error())
+		}
+		return nil, err
+	}
+
+	return entry, nil
 }
 
 // GetLatestReferenceUpdaterEntry returns the latest reference updater entry in
